@@ -5,10 +5,15 @@ correspondence: every queue class of queues.py, stream/queues.py, enrdy_queues.p
                 simulated with DefaultPassGroup, vs `runCls` of Model/Queue.lean: per cycle ready/valid outputs,
                 delivered message, count / num_free_entries / full
 direct oracle:  c17_util.Oracle — a plain FIFO ledger of the observed handshakes with the kind's ready law
+second stream:  c17_adapters.py — the same queue classes reached THROUGH the stdlib RTL<->CL/FL adapters in closed pipelines of 1-3
+                queues (RTL producers rewriting one signal object in place, CL/FL producers and consumers, random stalls): FIFO ledger
+                of every place by value + object ownership; two topologies are compared cycle by cycle with Model/QAdapter.lean
+                (theorems: Props/C17a.lean)
 """
 from ..common import leanio
 from ..common.leanio import InfraError
 from . import c17_util as U
+from . import c17_adapters as AD
 
 PID = 'C17'
 DRIVERS = ['queue']
@@ -123,6 +128,12 @@ GEN_THEOREMS = ['PV.C17Gen.' + t for t in [
 THEOREM_MODULE = {**{t: MODULE for t in THEOREMS}, **{t: GEN_MODULE for t in GEN_THEOREMS}}
 THEOREMS = THEOREMS + GEN_THEOREMS
 MODULE = [MODULE, GEN_MODULE]
+# ---- begin: queues behind the level adapters, message ownership (harness/checks/c17_adapters.py, Props/C17a.lean)
+DRIVERS = DRIVERS + AD.DRIVERS
+MODULE = MODULE + [AD.MODULE]
+THEOREMS = THEOREMS + AD.THEOREMS
+THEOREM_MODULE.update({t: AD.MODULE for t in AD.THEOREMS})
+# ---- end
 TRUSTED = [
   'Model/Queue.lean follows the update blocks of the five queue files (registers, wrap tests, Bits widths, reset branches) by hand',
   'RegisterFile / Mux / Reg / RegEn / RegRst are modelled inline (a function Nat -> msg for the register file)',
@@ -181,6 +192,14 @@ RULE = ('queue class x capacity {1,2,3,4,5,7,8} x message type {Bits16, 2-field 
         'thorough adds every (reachable control state x contents over a 2-message alphabet) x every intent for n <= 4, reached on a fresh '
         'instance by the shortest input prefix, followed by a full drain; non-trivial = at least one enqueue and one dequeue transfer happened; '
         'distinct = distinct (class, n, type, intents)')
+
+RULE = RULE + ' | ' + AD.RULE
+TRUSTED = TRUSTED + AD.TRUSTED
+ASSUMPTIONS = ASSUMPTIONS + [
+  'adapter stream: a CL or FL producer that calls a CL queue (or a non-copying adapter: RecvFL2SendCL, RecvFL2SendRTL, RecvCL2GiveFL) directly passes a fresh '
+  'object per message -- those callees keep the object they are given; producers in front of a copying adapter (RecvRTL2SendCL, RecvCL2SendRTL, the stream '
+  'queue adapters) rewrite ONE object in place every cycle',
+]
 
 ALL_CLASSES = list(U.CLASSES)
 
@@ -465,9 +484,12 @@ def run(ck):
     'positions_seen': sum(len(PARTIAL_COV.get(k, set()) & w) for k, w in want.items()),
     'missing': missing}
   ck.extra_cov['exhaustive_part'] = {'what': 'states (control registers x contents over 2 messages) and (state x intent) edges per class/capacity', 'table': ex}
+  # second stream: the queues behind the stdlib level adapters; message ownership
+  AD.run_stream(ck)
 
 def replay(ck, data):
   case = data['case']
+  if case.get('stream'): return AD.replay(ck, case)
   case = {k: case[k] for k in ('cls', 'n', 'mt', 'intents')}
   ins, obs, bad, stats = run_impl(case['cls'], case['n'], case['mt'], case['intents'])
   m = parse_reply(ck.drv('queue').batch([model_line('run', case['cls'], case['n'], ins)])[0])
